@@ -12,7 +12,9 @@ RULE = ("Hypothesis-generated envelope histories (one-sided or two-sided disjoin
         "stop/start cycles placed at arbitrary step boundaries; between 'down' and 'up' users may change either side "
         "(offline changes); restart modes: storage intact / cursor rows removed / stored cursor rejected by the "
         "provider / walk marker removed.  In a third of the cycles the stop request reaches an event loop in the middle of "
-        "a batch (after k = 0..3 events of that intake step: CloudSync.stop() from another thread).  Oracles: both roots equal the expected merged tree at every quiet point "
+        "a batch (after k = 0..3 events of that intake step: CloudSync.stop() from another thread), and a third of the "
+        "cycles end before the engine has gone quiet (e.g. right after the intake step that noticed the bad cursor or did "
+        "the fall-back walk).  Oracles: both roots equal the expected merged tree at every quiet point "
         "(nothing lost, duplicated or flagged '.conflicted'); after a restart at a quiet point with no offline "
         "change the engine issues no provider mutation and no download until users act again (no re-transfer).  "
         "Non-trivial = a restart with pending work (non-empty change set or undelivered events) or with offline user "
@@ -44,35 +46,55 @@ def gen(d, tier):
     acts = []
     emit_base(d, world, acts, d.choice(sides))
     ncycles = d.int(1, 3 if tier == "quick" else 4)
+    lossy_window = False        # a cursor-losing restart happened since the last quiet point
+    unsafe_ops = [False]        # a delete / rename / rmtree happened since the last quiet point
+
+    def user_op(kinds):
+        c = emit_user_op(d, world, acts, d.choice(sides), kinds=kinds)
+        if c is not None and c[0] not in ("create", "write", "mkdir"):
+            unsafe_ops[0] = True
     for c in range(ncycles):
         mode = d.weighted((("intact", 4), ("no_cursor", 2), ("bad_cursor", 2), ("no_walk_marker", 1)))
-        kinds = SAFE_KINDS if mode in ("no_cursor", "bad_cursor") else OP_KINDS
+        if mode in ("no_cursor", "bad_cursor"):
+            if unsafe_ops[0]:
+                acts.append(["settle"])     # deletes / renames of this window must be synced before the cursor is lost
+                world.settle()
+                unsafe_ops[0] = False
+            lossy_window = True
+        kinds = SAFE_KINDS if lossy_window else OP_KINDS
         # online phase
         for _ in range(d.int(0, 4)):
             k = d.weighted((("op", 5), ("step", 5)))
             if k == "op":
-                emit_user_op(d, world, acts, d.choice(sides), kinds=kinds)
+                user_op(kinds)
             else:
                 acts.append(["step", d.choice(("EL", "ER", "S"))])
         if d.chance(1, 3):
             acts.append(["settle"])
             world.settle()
+            unsafe_ops[0] = False
+            lossy_window = mode in ("no_cursor", "bad_cursor")
         if d.chance(1, 3):
             # the stop request arrives while an event loop is in the middle of a batch (CloudSync.stop() from another
             # thread): that intake step hands k events to the engine, then sees the stop flag
             acts.append(["stopstep", d.choice(("EL", "ER")), d.int(0, 3)])
         acts.append(["down"])
         for _ in range(d.int(0, 3)):
-            emit_user_op(d, world, acts, d.choice(sides), kinds=kinds)
+            user_op(kinds)
         acts.append(["up", mode])
         for _ in range(d.int(0, 3)):
             k = d.weighted((("op", 3), ("step", 5)))
             if k == "op":
-                emit_user_op(d, world, acts, d.choice(sides), kinds=kinds)
+                user_op(kinds)
             else:
                 acts.append(["step", d.choice(("EL", "ER", "S"))])
-        acts.append(["settle"])
-        world.settle()
+        if c == ncycles - 1 or d.chance(2, 3):
+            acts.append(["settle"])
+            world.settle()
+            unsafe_ops[0] = False
+            lossy_window = False
+        # (otherwise the next stop comes before the engine has gone quiet: e.g. right after the intake step that did
+        # the fall-back walk, before any sync step)
     return {"cfg": cfg, "acts": acts, "meta": {"excluded": dict(world.excluded)}}
 
 
